@@ -301,3 +301,101 @@ pub fn gen_srv_histories(out: &mut Out, rng: &mut Rng, n: usize) {
         out.case(&format!("srv {kind} svc={svc_tok}{ty}{w} r={}", if evs.is_empty() { "-".to_string() } else { evs.join(",") }));
     }
 }
+
+/// random byte streams through each of the five stream decoders: valid frames of every kind,
+/// damaged ones (flipped bits, cut short, bytes inserted or removed), junk in between, cut into
+/// reads at random with pendings, ending open, with the end of the stream or with a read error
+pub fn gen_stream_histories(out: &mut Out, rng: &mut Rng, n: usize) {
+    let codecs = ["tcpsrv", "tcpcli", "tcpadu", "rtusrv", "rtucli"];
+    for i in 0..n {
+        let codec = codecs[i % codecs.len()];
+        let tcp = codec.starts_with("tcp");
+        let server = codec.ends_with("srv");
+        let mut data: Vec<u8> = vec![];
+        for _ in 0..rng.range(1, 5) {
+            let pdu: Vec<u8> = if server || (codec == "tcpadu" && rng.bool()) {
+                loop {
+                    let r = gen_request(rng, None);
+                    if !tcp && matches!(r, Request::Custom(..)) {
+                        continue;
+                    }
+                    if let Some(b) = spec::request_bytes(&r) {
+                        if b.len() <= 253 {
+                            break b;
+                        }
+                    }
+                }
+            } else if rng.chance(1, 5) {
+                vec![(rng.u8() % 0x2B + 1) | 0x80, rng.u8()]
+            } else {
+                loop {
+                    let r = gen_response(rng, None);
+                    if !tcp && matches!(r, Response::Custom(..)) {
+                        continue;
+                    }
+                    if let Some(b) = spec::response_bytes(&r) {
+                        if b.len() <= 253 {
+                            break b;
+                        }
+                    }
+                }
+            };
+            let unit = if !tcp && rng.bool() { *rng.pick(&[0x00u8, 0x80, 0x41, 0x64]) } else { rng.u8() };
+            let mut f = if tcp { spec::mbap(rng.u16(), unit, &pdu) } else { spec::rtu_frame(unit, &pdu) };
+            match rng.below(8) {
+                0 => {
+                    let bit = rng.below(f.len() * 8);
+                    f[bit / 8] ^= 1 << (bit % 8);
+                }
+                1 => {
+                    let k = rng.below(f.len());
+                    f.truncate(k);
+                }
+                2 => {
+                    let at = rng.below(f.len() + 1);
+                    let ins = rng.bytes_in(1, 3);
+                    f.splice(at..at, ins);
+                }
+                3 => {
+                    let at = rng.below(f.len());
+                    f.remove(at);
+                }
+                _ => {}
+            }
+            if rng.chance(1, 4) {
+                let junk = if tcp || rng.bool() {
+                    rng.bytes_in(1, 12)
+                } else {
+                    let k = rng.range(1, 24);
+                    (0..k).map(|_| *rng.pick(&[0x00u8, 0x80, 0x41, 0x48, 0x64, 0x6E])).collect()
+                };
+                data.extend(junk);
+            }
+            data.extend(f);
+        }
+        let mut evs: Vec<String> = vec![];
+        let chunks = match rng.below(4) {
+            0 => vec![data.clone()],
+            1 if data.len() <= 40 => data.iter().map(|b| vec![*b]).collect(),
+            _ => {
+                let parts = rng.composition(data.len());
+                chunk(&data, &parts)
+            }
+        };
+        for c in chunks {
+            if rng.chance(1, 6) {
+                evs.push("p".into());
+            }
+            evs.push(format!("d{}", hex_raw(&c)));
+        }
+        match rng.below(6) {
+            0 | 1 => evs.push("e".into()),
+            2 => {
+                let at = rng.below(evs.len() + 1);
+                evs.insert(at, err_tok(rng));
+            }
+            _ => {}
+        }
+        out.case(&format!("stream {codec} {}", evs.join(",")));
+    }
+}
